@@ -78,6 +78,9 @@ type concSession struct {
 	worker    map[uint64]int
 	answering map[uint64]bool
 	closedLog bool
+	blabels   []string            // buffer life-cycle labels (Srv/Buf.v)
+	bufID     map[*go9p.Fcall]int // reply buffers in order of first appearance
+	sending   int                 // request the send goroutine is writing (-1: none)
 	paused    int
 	nlate     int
 	notes     []string
@@ -185,8 +188,48 @@ func (s *concSession) hookLocked(point string, obj interface{}, a, b uint32) {
 		}
 		return f
 	}
+	// ---- buffer life cycle (Srv/Buf.v) ----
+	bl := func(format string, a ...interface{}) { s.blabels = append(s.blabels, fmt.Sprintf(format, a...)) }
+	switch point {
+	case "respond.packed":
+		if req != nil && req.Rc != nil {
+			bl("GP %d %d", ridOf(req), contentID(req.Rc.Pkt))
+		}
+	case "flush.chained":
+		// srv.flush packs the Rflush directly (PackRflush), not through RespondRflush
+		if req != nil && req.Rc != nil {
+			bl("GP %d %d", ridOf(req), contentID(req.Rc.Pkt))
+		}
+	case "respond.R1":
+		if a&4 == 0 { // reqResponded was not set: this invocation wins
+			if a&1 != 0 {
+				bl("RF %d", ridOf(req))
+			} else {
+				bl("RS %d", ridOf(req))
+			}
+		}
+	case "send.dequeued":
+		s.sending = ridOf(req)
+		bl("DQ %d", s.sending)
+	case "send.written":
+		s.sending = -1
+	case "send.recycled":
+		if a == 1 {
+			bl("RC %d", ridOf(req))
+		} else {
+			bl("RD %d", ridOf(req))
+		}
+	}
 	switch point {
 	case "recv.enqueued":
+		if req.Rc != nil {
+			if b, ok := s.bufID[req.Rc]; ok {
+				bl("TP %d %d", s.nreq, b)
+			} else {
+				s.bufID[req.Rc] = len(s.bufID)
+				bl("TF %d", s.nreq)
+			}
+		}
 		id := s.nreq
 		s.nreq++
 		s.rid[req] = id
@@ -381,6 +424,10 @@ func (o *concOps) answer(req *go9p.SrvReq, act concAction) {
 	g := gid()
 	s := o.s
 	if act.par && packAnswer(req, act.payload) {
+		// the implementation packed the reply itself (exported PackR*): no library schedule point
+		s.mu.Lock()
+		s.blabels = append(s.blabels, fmt.Sprintf("GP %d %d", s.rid[req], contentID(req.Rc.Pkt)))
+		s.mu.Unlock()
 		o.answerPar(req)
 		return
 	}
@@ -534,7 +581,7 @@ func (c *concReq) flushCancel() bool {
 // ---- sessions and plans ----
 func newConcSession(maxpend int, flushop bool) *concSession {
 	s := &concSession{rid: map[*go9p.SrvReq]int{}, frames: map[frameKey]*frameSt{}, expect: map[uint64]int{},
-		winner: map[*go9p.SrvReq]*frameSt{}, worker: map[uint64]int{}, answering: map[uint64]bool{}}
+		winner: map[*go9p.SrvReq]*frameSt{}, worker: map[uint64]int{}, answering: map[uint64]bool{}, bufID: map[*go9p.Fcall]int{}, sending: -1}
 	var ops interface{}
 	if flushop {
 		o := &concOpsFlush{}
@@ -554,6 +601,14 @@ func newConcSession(maxpend int, flushop bool) *concSession {
 	}
 	hookTable.Store(s.srv, s.hook)
 	s.conn = newSegConn()
+	s.conn.onWrite = func(p []byte) {
+		// called by the transport with the bytes it was given (under the transport's lock)
+		s.mu.Lock()
+		if s.sending >= 0 {
+			s.blabels = append(s.blabels, fmt.Sprintf("W %d %d", s.sending, contentID(p)))
+		}
+		s.mu.Unlock()
+	}
 	s.srv.NewConn(s.conn)
 	return s
 }
@@ -623,6 +678,9 @@ func (s *concSession) finish(kind string, flushedByClient map[uint16]bool) strin
 	hookTable.Delete(s.srv)
 	s.mu.Lock()
 	defer s.mu.Unlock()
+	if bufMode {
+		return fmt.Sprintf("BL %s %d %s ; NOTE %s", kind, len(s.blabels), strings.Join(s.blabels, " "), strings.Join(append(s.notes, "-"), ","))
+	}
 	var sb strings.Builder
 	fp := 0
 	if s.ops.flushop {
@@ -1207,7 +1265,10 @@ func concLateAnswer(maxpend int) string {
 	return s.finish("lateanswer", nil)
 }
 
+var bufMode bool // srvconc buf: print the buffer life-cycle labels instead of the request life-cycle trace
+
 func modeSrvconc(tier string, args []string) {
+	bufMode = len(args) > 0 && args[0] == "buf"
 	rounds := 6
 	if tier == "thorough" {
 		rounds = 150
